@@ -465,6 +465,12 @@ class WorkflowConductor(object):
 
             raise exc.InvalidWorkflowStatusTransition(current_status, wf_ex_event.name)
 
+    def _fail_workflow_on_task_error(self):
+        # The error has been logged. A workflow that is already canceled stays canceled: there is
+        # no transition from canceled to failed and the late task event must not raise.
+        if self.get_workflow_status() != statuses.CANCELED:
+            self.request_workflow_status(statuses.FAILED)
+
     def get_workflow_initial_context(self):
         return json_util.deepcopy(self.workflow_state.contexts[0])
 
@@ -969,7 +975,7 @@ class WorkflowConductor(object):
             except Exception as e:
                 retry_task = False
                 self.log_error(e, task_id=task_id, route=route)
-                self.request_workflow_status(statuses.FAILED)
+                self._fail_workflow_on_task_error()
 
             if retry_task:
                 return self.update_task_state(task_id, route, events.TaskRetryEvent())
@@ -1001,7 +1007,7 @@ class WorkflowConductor(object):
                     task_state_entry["next"][task_transition_id] = all(evaluated_criteria)
                 except Exception as e:
                     self.log_error(e, task_id, route, task_transition_id)
-                    self.request_workflow_status(statuses.FAILED)
+                    self._fail_workflow_on_task_error()
                     continue
 
                 # If criteria met, then mark the next task staged and calculate outgoing context.
@@ -1017,7 +1023,7 @@ class WorkflowConductor(object):
 
                     if errors:
                         self.log_errors(errors, task_id, route, task_transition_id)
-                        self.request_workflow_status(statuses.FAILED)
+                        self._fail_workflow_on_task_error()
                         continue
 
                     out_ctx_idxs = json_util.deepcopy(task_state_entry["ctxs"]["in"])
